@@ -26,6 +26,23 @@ class IdArr:
     def __repr__(s): return f'IdArr({s.n})'
 
 
+def product_hints(xs, ts, consts):
+    """valid instances of monotonicity of multiplication by ts >= 1, over the monomials x*ts that occur in the obligations (x in xs):
+    (sx*x - y >= c  ->  sx*(x*ts) - (y*ts) >= c*ts), the same with <=, and the one-variable forms; z3 then closes the goals in linear arithmetic"""
+    hs = []
+    for c in consts:
+        for x in xs:
+            hs.append(T.implies(T.cmp('>=', x, C(c)), T.cmp('>=', T.mul(x, ts), T.mul(C(c), ts))))
+            hs.append(T.implies(T.cmp('<=', x, C(c)), T.cmp('<=', T.mul(x, ts), T.mul(C(c), ts))))
+        for i, x in enumerate(xs):
+            for y in xs[i + 1:]:
+                for sx in (1, -1):
+                    d = T.sub(T.mul(C(sx), x), y); dp = T.sub(T.mul(C(sx), T.mul(x, ts)), T.mul(y, ts))
+                    hs.append(T.implies(T.cmp('>=', d, C(c)), T.cmp('>=', dp, T.mul(C(c), ts))))
+                    hs.append(T.implies(T.cmp('<=', d, C(c)), T.cmp('<=', dp, T.mul(C(c), ts))))
+    return hs
+
+
 def offset_task(ctx):
     T.reset()
     e = M.Engine(ctx.mir(), prune_ms=300, max_steps=200000)
@@ -47,15 +64,23 @@ def offset_task(ctx):
     assert len(anchor_fn) == 1, anchor_fn
     obls = []
     import sys, time as _t; _t0 = _t.time()
-    pin = [(p, r) for p, r in e.run(PINO, [M.Ref(fr0, '_901'), I(tick, 'i32'), I(ts, 'u16')], Path([T.cmp('<=', start, C(MAX_TICK)), T.cmp('>=', start, C(MIN_TICK - 88 * 65535))]))]
+    off_local = e.mir.find(PINO).debug['offset']
+    pin = []
+    for p, r in e.run(PINO, [M.Ref(fr0, '_901'), I(tick, 'i32'), I(ts, 'u16')], Path([T.cmp('<=', start, C(MAX_TICK)), T.cmp('>=', start, C(MIN_TICK - 88 * 65535))])):
+        acc = e.last_locals.get(off_local)        # `offset` accumulator of the manual division (a constant on each path; absent on the early-return paths)
+        pin.append((p, r, acc.t[1] if acc is not None and T.is_c(acc.t) else None))
     n_pairs = 0
     print('pino paths', len(pin), round(_t.time() - _t0), 's', file=sys.stderr)
     some_seen = none_seen = 0
-    for i, (pp, pr) in enumerate(pin):
+    import os as _os
+    lim = _os.environ.get('C12M_PATHS')
+    for i, (pp, pr, acc) in enumerate(pin):
+        if lim and str(i) not in lim.split(','): continue
         if isinstance(pr, Panic):
             o = M.Obligation(f'offset:pino:path{i}:no_panic', pp.pc, FALSE, note=pr.msg); o.replay = None; obls.append(o); continue
         for j, (ap, ar) in enumerate(e.run(anchor_fn[0], [M.Ref(fr0, '_900'), I(tick, 'i32'), I(ts, 'u16')], pp)):
             n_pairs += 1
+            if n_pairs % 20 == 0: print('pairs', n_pairs, 'pino path', i, round(_t.time() - _t0), 's', e.stats, file=sys.stderr, flush=True)
             tag = f'offset:pair{i}.{j}'
             if isinstance(ar, Panic):
                 o = M.Obligation(f'{tag}:anchor_no_panic', ap.pc + pre, FALSE, note=ar.msg); o.replay = None; obls.append(o); continue
@@ -68,17 +93,22 @@ def offset_task(ctx):
                 else:
                     g = FALSE; note = 'Pinocchio finds a slot, Anchor reports TickNotFound: the pair must be infeasible'
                 o = M.Obligation(f'{tag}:same_slot', ap.pc + pre, g, note=note)
-                o.replay = None; obls.append(o)
+                o.replay = None; o.off_const = off[1] if T.is_c(off) else 0; obls.append(o)
                 o = M.Obligation(f'{tag}:slot_is_the_tick', ap.pc + pre, T.and_(T.cmp('=', T.add(start, T.mul(off, ts)), tick), T.cmp('<', off, C(88)), T.cmp('>=', off, C(0)),
                                                                          T.cmp('>=', tick, C(MIN_TICK)), T.cmp('<=', tick, C(MAX_TICK))),
                                  note='the offset addresses exactly this tick: start + offset*spacing == tick, offset < 88, tick within the protocol bounds')
-                o.replay = None; obls.append(o)
+                o.replay = None; o.off_const = off[1] if T.is_c(off) else 0; obls.append(o)
             else:
                 none_seen += 1
                 g = FALSE if ar.var == 'Ok' else TRUE
                 o = M.Obligation(f'{tag}:both_not_found', ap.pc + pre, g, note='Pinocchio reports no slot: Anchor must report TickNotFound (pair with Ok infeasible)')
-                o.replay = None; obls.append(o)
+                o.replay = None; o.off_const = acc; obls.append(o)
     ctx.extra['offset_pairs'] = n_pairs
+    qs = [q for (q, r, lem) in e.divmemo.values()]
+    hints = product_hints([k] + qs, ts, list(range(-90, 91)))
+    for o in obls:
+        c0 = getattr(o, 'off_const', None)
+        o.hints = hints if c0 is None else product_hints([k] + qs, ts, sorted({c0 - 1, c0, c0 + 1, 0, 1, -1, 88, -88, -c0, -c0 - 1, -c0 + 1}))
     ctx.functions.update(e.executed)
     # vacuity: there is a feasible Some-path and a feasible None-path
     ctx.discharge(obls, cap=ctx.cap(120, 600))
